@@ -25,7 +25,19 @@ LevelOK(e) ==
 ScaleOK(e) ==
     IF e.T > 0 THEN (e.scout * ProdQ(e.qf, e.T, Len(e.qf))) % e.T = (e.scin * ProdSc(e.mats, e.T, Len(e.mats))) % e.T
     ELSE Abs(e.scout - (e.scin + SumSc(e.mats, Len(e.mats)) - SumQ(e.qf, Len(e.qf)))) <= 8
+\* Permutation.GetDiagonals: the diagonals are the matrix that sends slot `from` of row r to slot `to`, times the scaling
+PermOK(m, h) ==
+    m.isperm =>
+      /\ \A i \in 1..Len(m.perm) : LET p == m.perm[i] IN
+            \E d \in 1..Len(m.diags) : /\ (m.diags[d].k - (p.from - p.to)) % h = 0
+                                      /\ m.diags[d].v[p.r + 1][p.to + 1] = p.sc
+      /\ \A d \in 1..Len(m.diags) : \A r \in 1..Len(m.diags[d].v) : \A j \in 1..h :
+            (m.diags[d].v[r][j][1] # 0 \/ m.diags[d].v[r][j][2] # 0) =>
+                \E i \in 1..Len(m.perm) : /\ m.perm[i].r = r - 1 /\ m.perm[i].to = j - 1
+                                          /\ (m.diags[d].k - (m.perm[i].from - m.perm[i].to)) % h = 0
+                                          /\ m.perm[i].sc = m.diags[d].v[r][j]
 LtOK(e) ==
+    /\ \A i \in 1..Len(e.mats) : PermOK(e.mats[i], e.h)
     /\ ~e.err /\ ~e.panic
     /\ e.cons /\ e.inok
     /\ e.out = ApplySeq(e.mats, e.x, e.T, Len(e.mats))
